@@ -1,0 +1,27 @@
+package util
+
+import (
+	"testing"
+
+	"github.com/stretchr/testify/assert"
+)
+
+func TestAppendMergedKey(t *testing.T) {
+	merge := func(keys ...string) string {
+		return string(AppendMergedKey(nil, keys))
+	}
+	assert.Equal(t, "\x02ab\x01c", merge("ab", "c"))
+	assert.NotEqual(t, merge("ab", "c"), merge("a", "bc"))
+	assert.NotEqual(t, merge("", "x"), merge("x", ""))
+	assert.NotEqual(t, merge("", ""), merge(""))
+	assert.NotEqual(t, merge("\x01a"), merge("", "a"))
+	assert.Equal(t, "", merge())
+
+	buf := make([]byte, 0, 100)
+	buf = AppendMergedKey(buf, []string{"a"})
+	buf = AppendMergedKey(buf[:0], []string{"b", ""})
+	assert.Equal(t, "\x01b\x00", string(buf))
+
+	long := string(make([]byte, 300))
+	assert.Equal(t, "\xac\x02"+long+"\x01z", merge(long, "z"))
+}
